@@ -519,9 +519,11 @@ func (root *Root) validateDirUse(where string, loc Location, du *DirectiveUse) (
 			if co, _ := a.Type.(InCoercer); co != nil {
 				if v, err := co.CoerceIn(av.Value); err != nil {
 					errs = append(errs, fmt.Errorf("%w at %d:%d", err, av.line, av.col))
-				} else if v != av.Value {
-					// Might as well replace the coerced value since it is really
-					// what is needed.
+				} else {
+					// Might as well replace the coerced value since it is
+					// really what is needed. Do not compare the values
+					// first, list and object values are not comparable and
+					// would panic.
 					av.Value = v
 				}
 			}
